@@ -40,6 +40,7 @@ type CCall struct {
 	Resp      Resp   `json:"resp"`
 	Signals   []Sig  `json:"signals,omitempty"`
 	WithChans bool   `json:"with_chans,omitempty"`
+	KeepOpen  bool   `json:"keep_open,omitempty"` // the caller leaves signalsToStep open until the session is over (allowed: closing is only recommended)
 }
 
 // ClientFault is the fault of one run / sub-run.
@@ -165,6 +166,7 @@ func PlanClient(s Src, o ClientOpts) *ClientPlan {
 				for k := 0; k < ns; k++ {
 					call.Signals = append(call.Signals, Sig{ID: "poke", Data: map[string]any{"k": int64(s.Choose("cl.sigk", 1000))}})
 				}
+				call.KeepOpen = s.Choose("cl.keepopen", 3) == 2
 				call.Resp.PreSignals = s.Choose("cl.presig", 3)
 				if call.Resp.PreSignals > 0 {
 					p.Features["signals_from_step"] = true
@@ -428,6 +430,7 @@ func runClientPlan(t *testing.T, plan *ClientPlan, fault ClientFault, tape *rt.T
 		rt.Yield(siteAfterExec)
 		obs.Results = make([][]CallResult, len(plan.Callers))
 		var wg sync.WaitGroup
+		var lateClose []chan schema.Input // only appended to by feeder goroutines, one scheduler step at a time
 		if err == nil {
 			for ci := range plan.Callers {
 				calls := plan.Callers[ci]
@@ -445,9 +448,15 @@ func runClientPlan(t *testing.T, plan *ClientPlan, fault ClientFault, tape *rt.T
 							stop := make(chan struct{})
 							var side sync.WaitGroup
 							side.Add(2)
+							keepOpen := call.KeepOpen
 							rt.GoNamed("sigfeed", func() {
 								defer side.Done()
-								defer close(toStep)
+								if keepOpen {
+									// closed when the whole session is over
+									defer func() { lateClose = append(lateClose, toStep) }()
+								} else {
+									defer close(toStep)
+								}
 								for _, sg := range call.Signals {
 									rt.Yield(siteHarness)
 									select {
@@ -499,6 +508,9 @@ func runClientPlan(t *testing.T, plan *ClientPlan, fault ClientFault, tape *rt.T
 		obs.CloseErr = client.Close()
 		obs.CloseDone = true
 		rt.Yield(siteHarness)
+		for _, c := range lateClose {
+			close(c)
+		}
 		// the engine drops the connection after Close
 		_ = channel.Close()
 		rt.Yield(siteWaitServer)
